@@ -1089,3 +1089,23 @@ pub unsafe extern "C" fn close(fd: c_int) -> c_int {
     }
     libc::syscall(libc::SYS_close, fd as c_long) as c_int
 }
+
+/// std checks with `fcntl(fd, F_GETFD)` that a descriptor is still open before closing it
+/// when debug assertions are enabled; simulated descriptors must answer.
+#[no_mangle]
+pub unsafe extern "C" fn fcntl(fd: c_int, cmd: c_int, arg: c_long) -> c_int {
+    if is_fake(fd) {
+        return match with(|k| k.fd(fd)) {
+            Ok(_) => 0,
+            Err(e) => {
+                set_errno(e);
+                -1
+            }
+        };
+    }
+    libc::syscall(libc::SYS_fcntl, fd as c_long, cmd as c_long, arg) as c_int
+}
+#[no_mangle]
+pub unsafe extern "C" fn fcntl64(fd: c_int, cmd: c_int, arg: c_long) -> c_int {
+    fcntl(fd, cmd, arg)
+}
